@@ -78,6 +78,7 @@ TRUSTED = [
     "the harness-side canonicaliser (corr/C15.py canon) that turns real DataFrames / arrays into the driver's tokens",
 ]
 ASSUMPTIONS = [
+    "state a converter could leave behind outside sktime/utils/data_processing.py (pandas / numpy global options, other modules) is shared by the current-state and the fresh-state run and is not detected; check_X cases are not re-run in a fresh state",
     "instance identifiers (row labels of a start nested frame, instance level of a multi-index frame, instance column of a long table) are pairwise distinct ints or strings in ANY order; "
     "strings are mapped order-preservingly to integers for the model (it only compares and sorts identifiers). Every frame RETURNED by a converter must carry the default RangeIndex "
     "(a pandas 2-D table may carry the start frame's row labels) and Series cells the default time index 0..t-1: the canonicaliser flags anything else, so a deviation shows as a disagreement",
@@ -89,7 +90,9 @@ ASSUMPTIONS = [
     "frames that would contain NaN after pd.concat / pivot (unequal series lengths inside from_nested_to_multi_index, incomplete long tables) are outside the model (E:unmodelled, never generated)",
     "the name attribute of the Series in the cells is irrelevant to every converter (since 89ac2e4); the stream includes cells named by column, by instance and in permuted order, sent to the same model line as unnamed cells",
 ]
-RULE = ("cell dtypes: start containers are float64 or (about 2/3 of the cases) carry int64 / int32 / float32 cells, columns or instances (first-only, last-only, per-column mixes, uniform); "
+RULE = ("order independence: a fixed perturbing call sequence runs before the first case; conversion cases are evaluated in the current module state and in a fresh copy of the module "
+        "(always when the module's state fingerprint deviates from a fresh copy's, every 4th case otherwise); call histories of 3-6 calls with changing optional arguments, each call compared "
+        "with the same call in a fresh state; cell dtypes: start containers are float64 or (about 2/3 of the cases) carry int64 / int32 / float32 cells, columns or instances (first-only, last-only, per-column mixes, uniform); "
         "values are compared as numbers; conversion after a selection: every converter and every path of length <= 2 on sub-panels OBTAINED from a bigger container by .loc list / boolean mask / .iloc / reversal "
         "of the instances, a column subset, a time prefix (stale MultiIndex levels, non-default row labels, numpy views) and on Fortran / transposed-view / strided 3-D and 2-D arrays, "
         "with the clause convert(select(P)) == select(convert(P)); "
